@@ -345,7 +345,7 @@ func TestVerifC07X(t *testing.T) {
 		instants = append(instants, 90_000, 600_250, 86_400_000, 1_700_000_070_500)
 	}
 	cfgs := []string{"", "start_30", "snr_3", "tsbd_20", "segtimeline_1", "segtimelinenr_1/tsbd_20", "ato_1.000", "periods_60", "scte35_1",
-		"statuscode_[{cycle:30,rsq:0,code:404}]", "timesubswvtt_en", "timesubsstpp_en,sv", "eccp_cbcs", "drm_EZDRM-1-key-cbcs-test", "patch_60/segtimeline_1", "startrel_-20"}
+		"statuscode_[{cycle:30,rsq:0,code:404}]", "timesubswvtt_en", "timesubsstpp_en,sv", "eccp_cbcs", "drm_EZDRM-1-key-cbcs-test", "drm_EZDRM-2-keys-cbcs-test", "patch_60/segtimeline_1", "startrel_-20"}
 	for _, ar := range vfBundledAssets {
 		a, err := ora.LoadAsset(vfBundledVod(), ar.Path, ar.MPD, false)
 		if err != nil || a.Ref.ContentType != "video" {
